@@ -234,6 +234,9 @@ type ApplyStageRunner struct {
 	done    chan struct{}
 	running bool
 	mu      sync.Mutex
+
+	// onForwarded, if set, is called after an item was sent to output.
+	onForwarded func()
 }
 
 // NewApplyStageRunner creates a new runner for the apply stage.
@@ -267,6 +270,12 @@ func NewApplyStageRunner(
 // Must be called before Start() to avoid data races.
 func (r *ApplyStageRunner) SetMetrics(metrics *PipelineMetrics) {
 	r.metrics = metrics
+}
+
+// SetOnForwarded sets a callback invoked each time an item has been sent to the
+// output channel. Must be called before Start() to avoid data races.
+func (r *ApplyStageRunner) SetOnForwarded(fn func()) {
+	r.onForwarded = fn
 }
 
 // Start starts the apply stage runner.
@@ -348,6 +357,9 @@ func (r *ApplyStageRunner) forwardItem(ctx context.Context, item *BlockItem) {
 
 	select {
 	case r.output <- item:
+		if r.onForwarded != nil {
+			r.onForwarded()
+		}
 	case <-ctx.Done():
 		return
 	}
